@@ -15,7 +15,6 @@ def multisets(W, H, k):
 
 
 def job(a):
-    from moptipyapps.binpacking2d.instgen.instance_space import InstanceSpace
     from moptipyapps.binpacking2d.objectives.bin_count import BinCount
     W, H, k, shard, nshards = a
     ninst = 0
@@ -61,16 +60,16 @@ def job(a):
         if inst.total_item_area != area or inst.n_items != abs(k):
             bads.append(("Instance|area or item count wrong", W, H, merged,
                          (inst.total_item_area, inst.n_items), (area, k)))
-        if BinCount(inst).lower_bound() != lb:
-            bads.append(("BinCount|lower_bound differs from the instance's",
-                         W, H, merged, BinCount(inst).lower_bound(), lb))
-        try:
-            sp = InstanceSpace(inst)
-            if sp.min_bins != min(lb, abs(k)):
-                bads.append(("InstanceSpace|min_bins differs", W, H, merged,
-                             sp.min_bins, lb))
-        except ValueError:
-            pass
+        # the objective's own lower bound must be a valid bound as well (it
+        # need not be the same number): decided by the packing search if it
+        # claims more than the instance's bound
+        ob = int(BinCount(inst).lower_bound())
+        if ob > lb and ob > geo:
+            cert = F.fits(list(ms), ob - 1, W, H, want_cert=True,
+                          stats=states)
+            if cert is not None:
+                bads.append(("BinCount|lower bound exceeds the optimum", W,
+                             H, merged, ob, cert))
         if lb > geo:
             above_area += 1
             searched += 1
